@@ -188,6 +188,13 @@ func monC48(h *Hist, o *TxnObs) {
 				}
 			}
 		}
+		// "A rejected change leaves all settings as they were" also for whoever reads them next: the keys the call touched
+		// are read back the way the next transaction reads them (through the block cache) and without any cache
+		if h.Focus == "C48" && o.Outcome == "failed" {
+			h.rereadTouched(o, "C48", func(sig, detail string) {
+				h.V("C48", "rejected-change-visible-to-later-reads:"+sig, detail, o)
+			})
+		}
 		return
 	}
 	// success => every submitted key reads back as the parsed value (contracts with a field table)
